@@ -652,7 +652,10 @@ ASCII_WORDS = ['', 'a', 'abc', 'x y', 'no', 'null', '1e3', '0x1f', '1:30', '.inf
                '# c', '&a', '*a', '!t', '| b', '> f', '%d', '@a', '[x]', '{y}', "it's", 'say "hi"', ' lead', 'trail ',
                '2023-09-05', '11:11:11', '1/5', '5.25', '---', '...']
 UNI_WORDS = ['é', 'ü-ß', '日本語', '\U0001f600', 'a\nb', 'tab\there', '\x85nel', ' ls', '﻿bom', 'nullé',
-             'Ω≈ç√', 'á', 'line1\nline2\n', '\r\n', 'ctrl\x07', '\x00nul', '퟿', '']
+             'Ω≈ç√', 'á', 'line1\nline2\n', '\r\n', 'ctrl\x07', '\x00nul', '퟿', '',
+             # one text, several codings: normalisation (NFC/NFKC), case folding or white-space tidying changes these
+             'e\u0301', '\u00e9', '\ufb01', '\uff11\uff12', 'A\u030a', '\u212b', 'a\u200bb', 'x\u00a0y', '\u00df', 'SS', '\u0130', 'i\u0307',
+             'trail\u3000', '\u2003lead', 'a\u2029b', '\ud7ff\ue000', 'Straße', 'STRASSE']
 
 
 LOOKALIKE_WORDS = ['1e3', '2E5', '1.5e3', '-2e-3', '12e4567', 'NaN', 'nan', 'Infinity', '-Infinity', '.inf', '-.INF', '.NaN',
@@ -691,11 +694,14 @@ def sample_str(rng, alphabet='mixed'):
 
 
 def sample_int(rng):
-    return rng.choice([0, 1, -1, 2, 3, 7, 10, -5, 255, 2**31, -2**63, 10**20, 4, 6])
+    return rng.choice([0, 1, -1, 2, 3, 7, 10, -5, 255, 2**31, -2**63, 10**20, 4, 6, 2**53 + 1, -(2**53) - 1, 9007199254740993, 10**15 + 1])
 
 
 def sample_float(rng):
-    return rng.choice([0.0, -0.0, 1.5, -2.25, 1e300, 1e-300, float('inf'), float('-inf'), 3.0, 0.1, 5.0])
+    return rng.choice([0.0, -0.0, 1.5, -2.25, 1e300, 1e-300, float('inf'), float('-inf'), 3.0, 0.1, 5.0,
+                       # need all 17 significant digits / an exponent / sit next to a power of two
+                       0.1 + 0.2, 1 / 3, 2 / 3, 1.0000000000000002, 123456789.12345678, 5e-324, 1.7976931348623157e308,
+                       1e16, 1e22, 1e23, 9007199254740993.0, 4.35, 2.675, 1e-7, 123456.789e3])
 
 
 JUNK = [None, True, 0, -3, 1.5, 'junk', b'by', [], [1, 'a'], {'k': 1}, (1, 2), [[1]], {'x': {'y': 2}}, '5', [None],
